@@ -5,8 +5,9 @@
 
      forall i snap tr, c10_scope i = true -> model_run i = Some (true, snap, tr) -> oracle i tr = true
 
-   It is FALSE of the faithful model on three input classes (open findings C10-F1..F3, see the
-   _refuted theorems).  What is proved for ALL states / histories of the model:
+   It is FALSE of the faithful model on two input classes (open findings C10-F1 and C10-F3, see
+   the _refuted theorems; the former C10-F2 is repaired in the source, its witness is kept as a
+   `_now_accepted` theorem).  What is proved for ALL states / histories of the model:
      - nothing is written by any operation other than save()            (C10_silent_until_save)
      - save() writes nothing when nothing is pending, otherwise exactly one SETCONF line, and
        Spec/TorStore.v's kvline parser reads back from it exactly the pending set: every pending
@@ -23,7 +24,7 @@
      - the model's per-type validate / parse (selected through the regenerated config_types
        table) agree with the Spec's typed semantics on every declared type and every value of
        the envelope                                  (C10_validate_agrees, C10_parse_agrees)
-     - THE FULL STATEMENT outside the three finding classes, from any model state that is
+     - THE FULL STATEMENT outside the two open finding classes, from any model state that is
        synchronised with Tor's store (relation Rel of Proofs/CfgSim.v: parsers = the table, every
        option's view = Tor's value parsed by type, nothing pending): the Spec oracle accepts the
        model's whole trace -- the pending set IS the set of options changed since the last
@@ -31,11 +32,12 @@
        an acknowledgement nothing is pending and every read returns the saved value, after a
        rejection everything stays pending                        (C10_oracle_holds_partial)
        [what keeps it `_partial`: the hypothesis c10_known i = false, i.e. exactly the complement
-        of the three finding classes]
+        of the two open finding classes emptied_list_saved and edit_while_detached]
      - the same FROM THE INPUT ALONE: bootstrap (the model of _do_setup) establishes that
-       synchronised state for every table / store / defaults of the envelope outside the two
-       bootstrap finding classes of C11 (benign_boot), so the whole model_run -- attach, then
-       the history -- is accepted by the oracle             (C10_holds_outside_findings_partial) *)
+       synchronised state for EVERY table / store / defaults of the envelope (port lists with
+       none, one or many lines included), so the whole model_run -- attach, then the history --
+       is accepted by the oracle                            (C10_holds_outside_findings_partial)
+       [`_partial` only because of c10_known i = false] *)
 From Coq Require Import String.
 From Coq Require Import List Bool Ascii Arith NArith ZArith.
 From TxVerif Require Import Lib.Bytes Lib.CfgLib Spec.CfgTypes Spec.TorStore Spec.CfgOracle Spec.C10
@@ -106,7 +108,7 @@ Proof. exact oracle_from_synced. Qed.
 Print Assumptions C10_oracle_holds_partial.
 
 Theorem C10_holds_outside_findings_partial : forall i b snap tr,
-  c10_scope i = true -> c10_known i = false -> benign_boot i = true ->
+  c10_scope i = true -> c10_known i = false ->
   model_run i = Some (b, snap, tr) ->
   b = true /\ boot_oracle i b snap = true /\ oracle i tr = true.
 Proof. exact c10_oracle_holds. Qed.
@@ -119,11 +121,14 @@ Theorem C10_emptied_list_refuted :
 Proof. exists w_f1. destruct f1_refuted as [[H1 H2] H3]. auto. Qed.
 Print Assumptions C10_emptied_list_refuted.
 
-Theorem C10_failed_listop_refuted :
-  exists i, failed_listop_marks_pending i = true /\ c10_scope i = true /\
-            exists snap tr, model_run i = Some (true, snap, tr) /\ oracle i tr = false.
-Proof. exists w_f2. destruct f2_refuted as [[H1 H2] H3]. auto. Qed.
-Print Assumptions C10_failed_listop_refuted.
+(* the repaired finding F2: its witness (remove a missing element, needs_save(), save) is accepted,
+   lies in no open class; needs_save() answers False and the save writes nothing *)
+Theorem C10_failed_listop_now_accepted :
+  c10_scope w_f2 = true /\ c10_known w_f2 = false /\
+  exists snap tr, model_run w_f2 = Some (true, snap, tr) /\ oracle w_f2 tr = true
+    /\ nth_error (map o_res tr) 1 = Some (XBool false) /\ map o_wrote tr = [[]; []; []].
+Proof. exact f2_now_accepted. Qed.
+Print Assumptions C10_failed_listop_now_accepted.
 
 Theorem C10_edit_while_detached_refuted :
   exists i, edit_while_detached i = true /\ c10_scope i = true /\
@@ -131,7 +136,7 @@ Theorem C10_edit_while_detached_refuted :
 Proof. exists w_f3. destruct f3_refuted as [[H1 H2] H3]. auto. Qed.
 Print Assumptions C10_edit_while_detached_refuted.
 
-(* non-vacuity: a history outside the three classes with a rejected and an accepted save, quoting,
+(* non-vacuity: a history outside the open classes with a rejected and an accepted save, quoting,
    case-insensitive names and in-place edits meets every hypothesis, and the oracle accepts it *)
 Example C10_nonvacuous :
   c10_scope w_ok = true /\ c10_known w_ok = false /\
